@@ -1,7 +1,9 @@
 //! C18 — a sampling decision is made once per trace and governs everything inside it.
 //! Drives the REAL `emit_traceparent::{TraceparentCtxt, TraceparentFilter, InSampledTraceFilter, Traceparent}`
 //! over `emit::span::SpanGuard::new` (what the span macros expand to) with a counter rng, a scripted sampler,
-//! bodies moved to fresh threads, pushed incoming headers and frames carried with `Frame::current`.
+//! bodies moved to fresh threads, pushed incoming headers (`Traceparent::push`), tracestates (`Tracestate::push`), both at
+//! once (`emit_traceparent::push`) and frames carried with `Frame::current`; events also observe `Tracestate::current()`
+//! and that `emit_traceparent::current()` agrees with the two single accessors.
 //! Case format: see lean/EmitModel/Driver/C18.lean.
 
 use std::sync::atomic::{AtomicU64, AtomicUsize, Ordering};
@@ -99,9 +101,16 @@ where
             let evt = emit::Event::new(emit::Path::new_raw("c18"), emit::Template::literal("e"), emit::Empty, emit::Empty);
             let p1 = tp_matches(w, &evt);
             let p2 = in_sampled_trace_filter(w.outside).matches(&evt);
+            let state = emit_traceparent::Tracestate::current();
+            // the combined accessor must agree with the two single ones
+            let (cur2, state2) = emit_traceparent::current();
+            if show_tp(&cur2) != show_tp(&cur) || state2 != state {
+                w.log.lock().unwrap().push("!current-pair-disagrees".into());
+            }
             w.log.lock().unwrap().push(format!(
-                "(event {} ({} {} {}) {} {})",
+                "(event {} {} ({} {} {}) {} {})",
                 show_tp(&cur),
+                show_state(&state),
                 tid(ids.trace_id()),
                 sid(ids.span_parent()),
                 sid(ids.span_id()),
@@ -178,27 +187,32 @@ where
                 }
                 "push" => {
                     let (tp, cs) = args.split_first()?;
-                    let l = tp.as_list()?;
-                    if l.len() != 3 {
-                        return None;
-                    }
-                    let id = |s: &Sexp| -> Option<Option<u64>> {
-                        if s.as_atom()? == "none" {
-                            Some(None)
-                        } else {
-                            let n = s.as_u64()?;
-                            if n >= 1_000_000 { Some(Some(n)) } else { None }
-                        }
-                    };
-                    let t = id(&l[0])?.and_then(|n| TraceId::from_u128(n as u128));
-                    let s = id(&l[1])?.and_then(SpanId::from_u64);
-                    let f = l[2].as_u64()?;
-                    if f > 255 {
-                        return None;
-                    }
-                    let tp = Traceparent::new(t, s, TraceFlags::from_u8(f as u8));
+                    let tp = parse_tp(tp)?;
                     tp.push().call(|| -> Option<()> {
                         for c in cs {
+                            run_prog(w, c)?;
+                        }
+                        Some(())
+                    })
+                }
+                "pushs" => {
+                    let (ts, cs) = args.split_first()?;
+                    let ts = make_state(ts.as_u64()?);
+                    ts.push().call(|| -> Option<()> {
+                        for c in cs {
+                            run_prog(w, c)?;
+                        }
+                        Some(())
+                    })
+                }
+                "pushb" => {
+                    if args.len() < 2 {
+                        return None;
+                    }
+                    let tp = parse_tp(&args[0])?;
+                    let ts = make_state(args[1].as_u64()?);
+                    emit_traceparent::push(tp, ts).call(|| -> Option<()> {
+                        for c in &args[2..] {
                             run_prog(w, c)?;
                         }
                         Some(())
@@ -208,6 +222,44 @@ where
             }
         }
         _ => None,
+    }
+}
+
+fn parse_tp(tp: &Sexp) -> Option<Traceparent> {
+    let l = tp.as_list()?;
+    if l.len() != 3 {
+        return None;
+    }
+    let id = |s: &Sexp| -> Option<Option<u64>> {
+        if s.as_atom()? == "none" {
+            Some(None)
+        } else {
+            let n = s.as_u64()?;
+            if n >= 1_000_000 { Some(Some(n)) } else { None }
+        }
+    };
+    let t = id(&l[0])?.and_then(|n| TraceId::from_u128(n as u128));
+    let s = id(&l[1])?.and_then(SpanId::from_u64);
+    let f = l[2].as_u64()?;
+    if f > 255 {
+        return None;
+    }
+    Some(Traceparent::new(t, s, TraceFlags::from_u8(f as u8)))
+}
+
+/// tracestate N is the text "sN"; 0 is the empty tracestate
+fn make_state(n: u64) -> emit_traceparent::Tracestate {
+    if n == 0 {
+        emit_traceparent::Tracestate::new_raw("")
+    } else {
+        emit_traceparent::Tracestate::new_owned_raw(format!("s{}", n))
+    }
+}
+
+fn show_state(s: &emit_traceparent::Tracestate) -> String {
+    match s.get() {
+        "" => "0".into(),
+        t => t.strip_prefix('s').map(|n| n.to_string()).unwrap_or_else(|| format!("?{}", t)),
     }
 }
 
@@ -310,7 +362,7 @@ where
             for p in progs {
                 run_prog(&w, p)?;
             }
-            Some(show_tp(&Traceparent::current()))
+            Some(format!("{} state={}", show_tp(&Traceparent::current()), show_state(&emit_traceparent::Tracestate::current())))
         })
         .join()
         .ok()
@@ -330,11 +382,25 @@ fn gen_prog(rng: &mut Rng, depth: usize, budget: &mut usize) -> Sexp {
     *budget -= 1;
     let n = rng.usize(4);
     let mut cs: Vec<Sexp> = (0..n).map(|_| gen_prog(rng, depth - 1, budget)).collect();
-    match rng.below(10) {
+    match rng.below(12) {
         0..=3 => Sexp::tagged("span", cs),
         4 => Sexp::tagged("spana", cs),
         5 => Sexp::tagged("spant", cs),
         6 => Sexp::tagged("carry", cs),
+        7 => {
+            let mut v = vec![Sexp::num(rng.below(4))];
+            v.append(&mut cs);
+            Sexp::tagged("pushs", v)
+        }
+        8 => {
+            let id = |rng: &mut Rng, none_odds: u64| {
+                if rng.chance(1, none_odds) { Sexp::atom("none") } else { Sexp::num(1_000_000 + rng.below(3)) }
+            };
+            let flags = *rng.pick(&[0u64, 1, 1, 1, 2, 3, 255]);
+            let mut v = vec![Sexp::list(vec![id(rng, 8), id(rng, 8), Sexp::num(flags)]), Sexp::num(rng.below(4))];
+            v.append(&mut cs);
+            Sexp::tagged("pushb", v)
+        }
         _ => {
             let id = |rng: &mut Rng, none_odds: u64| {
                 if rng.chance(1, none_odds) { Sexp::atom("none") } else { Sexp::num(1_000_000 + rng.below(3)) }
